@@ -206,6 +206,15 @@ static int json_patch_apply_move_copy(struct json_object **res,
 	}
 
 	from_s = json_object_get_string(jfrom);
+	if (!from_s) {
+		// a JSON null 'from' has no string form
+		_set_err(EINVAL, "Invalid from field");
+		return -1;
+	}
+	if (!path) {
+		_set_err(EINVAL, "Invalid path field");
+		return -1;
+	}
 
 	from_s_len = strlen(from_s);
 	if (strncmp(from_s, path, from_s_len) == 0) {
@@ -302,6 +311,11 @@ int json_patch_apply(struct json_object *copy_from, struct json_object *patch,
 			return -1;
 		}
 		op = json_object_get_string(jop);
+		if (!op) {
+			// a JSON null 'op' has no string form
+			_set_err(EINVAL, "Patch object has invalid 'op' field");
+			return -1;
+		}
 		if (!json_object_object_get_ex(patch_elem, "path", &jpath)) {
 			_set_err(EINVAL, "Patch object does not contain 'path' field");
 			return -1;
